@@ -335,6 +335,9 @@ def run(ck):
                         break
     finally:
         sppath._quad_available = old
+    # the identities that entitle the placement families to their oracle (differences, determinant ratios, squared lengths, extreme coordinates), for all integers
+    ck.apalache('MC_Placement', 'Inv')
+    ck.apalache('MC_Placement', 'Wrong', expect_error=True)
     ck.sample('collinear', cases[0])
 
 
